@@ -104,8 +104,9 @@ Theorem C09_expired_invisible_refuted_old_order :
     let c := exec g sched (init g t0 progs) in
     stale (sh c) <> [] /\ map r_total (reads (sh c)) = [5] /\ Esum (on_kind 0) (filter (fun r => T0 + 1000 <=? a_own r) (adds (sh c))) = 0.
 Proof.
-  exists (g2 false), T0, progs3, sched_d7. cbv zeta. repeat split; try (vm_compute; reflexivity); try (cbn; lia).
-  vm_compute. discriminate.
+  exists (g2 false), T0, progs3, sched_d7. cbv zeta.
+  split; [reflexivity|]. split; [apply le_n|]. split; [reflexivity|]. split; [vm_compute; reflexivity|].
+  split; [vm_compute; discriminate|]. split; vm_compute; reflexivity.
 Qed.
 
 Print Assumptions C09_no_invention.
